@@ -215,6 +215,8 @@ func (b *pbatch) Write() error {
 	if !p.armed {
 		return b.Batch.Write()
 	}
+	p.mu.Lock()
+	defer p.mu.Unlock()
 	p.commits++
 	n := p.commits
 	if n == p.at && p.mode == "err" {
